@@ -58,6 +58,9 @@ type symb struct {
 	subst map[ssa.Value]*Sym // optional substitutions (e.g. parameters -> caller expressions)
 	outer *symb              // symb of the enclosing function (for captured variables)
 	depth int                // nesting of symbolic inlining
+	// fwdStructCopy: a whole-struct read of a local copy of a loaded struct is rendered as the struct it was copied
+	// from (set by the rules that need it: the traversal step)
+	fwdStructCopy bool
 }
 
 // symNoInline: functions that rules identify by role or name; calls to them are never rendered through their
@@ -396,6 +399,17 @@ func (s *symb) expr0(v ssa.Value) *Sym {
 					if val := cellValue(al); val != nil {
 						if ld, ok := val.(*ssa.UnOp); ok && ld.Op == token.MUL {
 							return &Sym{Op: "load", Args: []*Sym{{Op: "field", Leaf: fmt.Sprintf("f%d", fa.Field), Args: []*Sym{s.expr(ld.X)}}}, Val: v}
+						}
+					}
+				}
+			}
+			// a struct variable that is a copy of a loaded struct, read as a whole (handed to a method by value): the
+			// struct it was copied from — only where a rule asks for it (fwdStructCopy)
+			if al, ok := x.X.(*ssa.Alloc); ok && s.fwdStructCopy {
+				if _, isStruct := al.Type().(*types.Pointer).Elem().Underlying().(*types.Struct); isStruct {
+					if ld, ok := cellValue(al).(*ssa.UnOp); ok && ld.Op == token.MUL {
+						if _, fromAlloc := ld.X.(*ssa.Alloc); !fromAlloc {
+							return s.expr(ld)
 						}
 					}
 				}
